@@ -145,3 +145,144 @@ Theorem C14_v2_counted_are_copied : forall (H256 : bytes -> bytes) B pl (fm : fi
   snd (match_v2 H256 B pl fm entries) = length (fst (match_v2 H256 B pl fm entries)).
 Proof. exact match_v2_is_concat. Qed.
 Print Assumptions C14_v2_counted_are_copied.
+
+(* ---------------------------------------------------------------------------------------------- *)
+(* the whole run ON THE FILESYSTEM (Model/RebuildRun.v: the matcher's copypath calls executed in    *)
+(* order; a call that raises ends the run).  See Props/C13.v for filemap_reflects, dest_disjoint,   *)
+(* entry_valid, target.                                                                             *)
+(* ---------------------------------------------------------------------------------------------- *)
+From TF Require Import Model.RebuildRun Proofs.RebuildRunProofs.
+
+(* "run the matcher, then the copies" is the real interleaved run: after ANY executed part of the trace every candidate still
+   holds the bytes the matcher read (so do the metafiles: C14_sources_and_metafiles_untouched) *)
+Theorem C14_candidates_keep_their_bytes_during_the_run : forall (dsize : nat) (fm : filemap) (dest : path) (f : fs),
+  filemap_reflects f fm -> dest_disjoint dest fm ->
+  forall trace done rest : list copy, trace = done ++ rest -> trace_indexed fm trace -> trace_relative trace ->
+  filemap_reflects (run_copies dsize dest done f) fm.
+Proof. exact run_prefix_reflects. Qed.
+Print Assumptions C14_candidates_keep_their_bytes_during_the_run.
+
+(* v2 / hybrid: EVERYTHING that is different after the run is (a) the place the metafile assigns to a listed entry, now holding
+   the bytes of a search-directory file indexed under and named like the entry's file name, of exactly the recorded length and
+   with the recorded BEP 52 root, where before there was nothing or a strictly shorter file; or (b) a directory that did not
+   exist, on the way to such a place *)
+Theorem C14_writes_are_verified_copies_v2 : forall (H256 : bytes -> bytes) B, 0 < B -> forall k pl, pl = B * 2 ^ k ->
+  forall (dsize : nat) (fm : filemap) (dest : path) (entries : list entry), Forall entry_valid entries ->
+  forall f : fs, filemap_reflects f fm -> dest_disjoint dest fm ->
+  forall p : path, rebuild_v2_fs dsize H256 B pl fm dest entries f p <> f p ->
+  (exists e l data, In e entries /\ p = target dest e /\
+      indexed fm (text (e_filename e)) (l, data) /\ verified H256 B e (l, data) /\
+      basename (parts_of l) = text (e_filename e) /\ CopyPath.lookup f (parts_of l) = Some (File data) /\
+      rebuild_v2_fs dsize H256 B pl fm dest entries f p = Some (File data) /\
+      (f p = None \/ exists old, f p = Some (File old) /\ List.length old < List.length data)) \/
+  (p <> [] /\ f p = None /\ rebuild_v2_fs dsize H256 B pl fm dest entries f p = Some Dir /\
+   exists e, In e entries /\ CopyPath.proper_prefix p (target dest e)).
+Proof. exact rebuild_v2_writes_are_verified_copies. Qed.
+Print Assumptions C14_writes_are_verified_copies_v2.
+
+(* v1: the same, the written bytes being those of a candidate that took part in a choice (one candidate per path node of a
+   recorded piece, each indexed under the node's file name with the node's length) whose selected bytes hash to the recorded
+   digest of that piece [v1_justified] *)
+Theorem C14_writes_are_verified_copies_v1 : forall (H1 : bytes -> bytes) (dsize : nat) (fm : filemap) (dest : path)
+    (nodes : list (bytes * list pathnode)), nodes_relative nodes ->
+  forall f : fs, filemap_reflects f fm -> dest_disjoint dest fm ->
+  forall p : path, rebuild_v1_fs dsize H1 fm dest nodes f p <> f p ->
+  (exists l pn data, v1_justified H1 fm nodes l pn data /\ p = dest ++ parts_of (pn_full pn) /\
+      basename (parts_of l) = pn_filename pn /\ List.length data = pn_length pn /\
+      CopyPath.lookup f (parts_of l) = Some (File data) /\ rebuild_v1_fs dsize H1 fm dest nodes f p = Some (File data) /\
+      (f p = None \/ exists old, f p = Some (File old) /\ List.length old < List.length data)) \/
+  (p <> [] /\ f p = None /\ rebuild_v1_fs dsize H1 fm dest nodes f p = Some Dir /\
+   exists piece paths pn, In (piece, paths) nodes /\ In pn paths /\ CopyPath.proper_prefix p (dest ++ parts_of (pn_full pn))).
+Proof. exact rebuild_v1_writes_are_verified_copies. Qed.
+Print Assumptions C14_writes_are_verified_copies_v1.
+
+(* what v1_justified says *)
+Theorem C14_v1_justified_means : forall (H1 : bytes -> bytes) (fm : filemap) (nodes : list (bytes * list pathnode)) l pn data,
+  v1_justified H1 fm nodes l pn data <->
+  exists piece paths chosen, In (piece, paths) nodes /\ valid_choice fm paths chosen /\
+    H1 (choice_bytes paths chosen) = piece /\ In (pn, (l, data)) (combine paths chosen) /\
+    In pn paths /\ indexed fm (pn_filename pn) (l, data) /\ List.length data = pn_length pn.
+Proof. intros; reflexivity. Qed.
+Print Assumptions C14_v1_justified_means.
+
+(* the search directories and the metafiles: no candidate changes, and whatever exists outside the destination (in particular
+   every metafile and everything under a search directory) is exactly as before; the only changes outside are missing ancestor
+   directories of the destination that are created.  Whole command (any mix of v1 and v2 metafiles, shared destination). *)
+Theorem C14_sources_and_metafiles_untouched : forall (H1 H256 : bytes -> bytes) B, 0 < B ->
+  forall (dsize : nat) (fm : filemap) (dest : path) (jobs : list job), Forall (job_ok B) jobs ->
+  forall f : fs, filemap_reflects f fm -> dest_disjoint dest fm ->
+  let f' := assemble_fs dsize H1 H256 B fm dest jobs f in
+  (forall name l data, indexed fm name (l, data) -> f' (parts_of l) = f (parts_of l)) /\
+  (forall p, f p <> None -> ~ CopyPath.prefix dest p -> f' p = f p) /\
+  (forall p, f' p <> f p -> CopyPath.prefix dest p \/ (CopyPath.proper_prefix p dest /\ f p = None /\ f' p = Some Dir)).
+Proof.
+  exact (fun H1 H256 B HB dsize fm dest jobs J f R D =>
+           conj (assemble_candidates_untouched H1 H256 B HB dsize fm dest jobs J f R D)
+                (conj (assemble_existing_outside_untouched H1 H256 B HB dsize fm dest jobs J f R D)
+                      (assemble_changes_inside_dest H1 H256 B HB dsize fm dest jobs J f R D))).
+Qed.
+Print Assumptions C14_sources_and_metafiles_untouched.
+
+(* whole command: every write is justified by one of the metafiles *)
+Theorem C14_writes_are_verified_copies_batch : forall (H1 H256 : bytes -> bytes) B, 0 < B ->
+  forall (dsize : nat) (fm : filemap) (dest : path) (jobs : list job), Forall (job_ok B) jobs ->
+  forall f : fs, filemap_reflects f fm -> dest_disjoint dest fm ->
+  forall p : path, assemble_fs dsize H1 H256 B fm dest jobs f p <> f p ->
+  (exists j l data, In j jobs /\ job_justifies H1 H256 B fm dest j p l data /\
+      CopyPath.lookup f (parts_of l) = Some (File data) /\ assemble_fs dsize H1 H256 B fm dest jobs f p = Some (File data) /\
+      (f p = None \/ exists old, f p = Some (File old) /\ List.length old < List.length data)) \/
+  (p <> [] /\ f p = None /\ assemble_fs dsize H1 H256 B fm dest jobs f p = Some Dir /\
+   exists j l full, In j jobs /\ In (l, full) (job_trace H1 H256 B fm j) /\ CopyPath.proper_prefix p (dest ++ parts_of full)).
+Proof. exact assemble_writes_are_verified_copies. Qed.
+Print Assumptions C14_writes_are_verified_copies_batch.
+
+(* a destination file that already has at least the recorded length of every entry placed there keeps its bytes, whatever they
+   are; a directory standing there stays *)
+Theorem C14_full_length_untouched_v2 : forall (H256 : bytes -> bytes) B, 0 < B -> forall k pl, pl = B * 2 ^ k ->
+  forall (dsize : nat) (fm : filemap) (dest : path) (entries : list entry), Forall entry_valid entries ->
+  forall f : fs, filemap_reflects f fm -> dest_disjoint dest fm ->
+  forall (p : path) (old : bytes), f p = Some (File old) ->
+  (forall e, In e entries -> p = target dest e -> (e_length e <= Z.of_nat (List.length old))%Z) ->
+  rebuild_v2_fs dsize H256 B pl fm dest entries f p = Some (File old).
+Proof. exact rebuild_v2_full_length_untouched. Qed.
+Print Assumptions C14_full_length_untouched_v2.
+
+Theorem C14_full_length_untouched_v1 : forall (H1 : bytes -> bytes) (dsize : nat) (fm : filemap) (dest : path)
+    (nodes : list (bytes * list pathnode)), nodes_relative nodes ->
+  forall f : fs, filemap_reflects f fm -> dest_disjoint dest fm ->
+  forall (p : path) (old : bytes), f p = Some (File old) ->
+  (forall piece paths pn, In (piece, paths) nodes -> In pn paths -> p = dest ++ parts_of (pn_full pn) ->
+                          pn_length pn <= List.length old) ->
+  rebuild_v1_fs dsize H1 fm dest nodes f p = Some (File old).
+Proof. exact rebuild_v1_full_length_untouched. Qed.
+Print Assumptions C14_full_length_untouched_v1.
+
+(* repeated: after the command the filemap still describes the filesystem (same search result, same calls), and running the
+   same calls again changes nothing and ends the same way (returns, or raises at the same call) *)
+Theorem C14_idempotent : forall (H1 H256 : bytes -> bytes) B, 0 < B ->
+  forall (dsize : nat) (fm : filemap) (dest : path) (jobs : list job), Forall (job_ok B) jobs ->
+  forall f : fs, filemap_reflects f fm -> dest_disjoint dest fm ->
+  let f' := assemble_fs dsize H1 H256 B fm dest jobs f in
+  filemap_reflects f' fm /\
+  assemble_run dsize H1 H256 B fm dest jobs f' = assemble_run dsize H1 H256 B fm dest jobs f.
+Proof.
+  exact (fun H1 H256 B HB dsize fm dest jobs J f R D =>
+           conj (assemble_reflects_after H1 H256 B HB dsize fm dest jobs J f R D)
+                (assemble_idempotent H1 H256 B HB dsize fm dest jobs J f R D)).
+Qed.
+Print Assumptions C14_idempotent.
+
+Theorem C14_idempotent_v2 : forall (H256 : bytes -> bytes) B, 0 < B -> forall k pl, pl = B * 2 ^ k ->
+  forall (dsize : nat) (fm : filemap) (dest : path) (entries : list entry), Forall entry_valid entries ->
+  forall f : fs, filemap_reflects f fm -> dest_disjoint dest fm ->
+  rebuild_v2_run dsize H256 B pl fm dest entries (rebuild_v2_fs dsize H256 B pl fm dest entries f) =
+  rebuild_v2_run dsize H256 B pl fm dest entries f.
+Proof. exact rebuild_v2_idempotent. Qed.
+Print Assumptions C14_idempotent_v2.
+
+Theorem C14_idempotent_v1 : forall (H1 : bytes -> bytes) (dsize : nat) (fm : filemap) (dest : path)
+    (nodes : list (bytes * list pathnode)), nodes_relative nodes ->
+  forall f : fs, filemap_reflects f fm -> dest_disjoint dest fm ->
+  rebuild_v1_run dsize H1 fm dest nodes (rebuild_v1_fs dsize H1 fm dest nodes f) = rebuild_v1_run dsize H1 fm dest nodes f.
+Proof. exact rebuild_v1_idempotent. Qed.
+Print Assumptions C14_idempotent_v1.
